@@ -33,12 +33,21 @@ def getAtIndex (b : Bytes) (h : Handle) (i : Nat) : RVal :=
   | some (.scalar _ _) => .err ErrorCode_NotIndexable
   | none => .err ErrorCode_ReadError
 
-/-- `shopify_function_input_get_obj_key_at_index` on a handle -/
+/-- `shopify_function_input_get_obj_key_at_index` on a handle: the key of pair `i`, provided
+    the sequential decoder finds that pair (string key, readable value header) -/
 def getKeyAtIndex (b : Bytes) (h : Handle) (i : Nat) : RVal :=
-  match hdrAt b h with
-  | some (.map len _) => if i < len then valueAt b h.root (h.path ++ [.key i]) else .err ErrorCode_IndexOutOfBounds
-  | some _ => .err ErrorCode_NotAnObject
+  match specPath b 0 h.path with
   | none => .err ErrorCode_ReadError
+  | some p =>
+    match readHdr b p with
+    | some (.map len _) =>
+      if i < len then
+        (match specPair b p i with
+         | some _ => valueAt b h.root (h.path ++ [.key i])
+         | none => .err ErrorCode_ReadError)
+      else .err ErrorCode_IndexOutOfBounds
+    | some _ => .err ErrorCode_NotAnObject
+    | none => .err ErrorCode_ReadError
 
 /-- `shopify_function_input_get_obj_prop` on a handle: first pair in document order whose key
     bytes equal the name; `null` when there is none -/
